@@ -635,3 +635,51 @@ def _(u):
     u.prove("check.sound.linehaul-load-within-capacity", Ll(b, t1) <= cap(b), tags=("C06",))
     u.prove("check.sound.backhaul-load-within-capacity", Lb(b, t1) <= cap(b), tags=("C06",))
     u.canary("check.sound.route-length-strictly-below-limit", rlen(b, t) < td["distance_limit"].at(b, 0))
+
+
+# ---------------------------------------------------------------------------------------------
+# SDVRP (split delivery): the checker replays the deliveries; passing means every customer's demand was delivered in full
+# ---------------------------------------------------------------------------------------------
+SDV = "rl4co/envs/routing/sdvrp/env.py"
+
+
+@unit("sdvrp.check.sound", file=SDV, func="SDVRPEnv.check_solution_validity", props=("C06",))
+def _(u):
+    B, N = u.dims("B N")
+    T = u.dim("T", 2)
+    td = u.td(B, demand=((B, N), "f"), vehicle_capacity=((B, 1), "f"))
+    act = u.tensor("actions", (B, T), "i")
+    u.requires(u.forall((B, T), lambda b, t: AND(act.at(b, t) >= 0, act.at(b, t) <= N)))
+    u.requires(u.forall((B,), lambda b: td["vehicle_capacity"].at(b, 0) > 0))
+    u.requires(u.forall((B, N), lambda b, j: td["demand"].at(b, j) >= 0))
+    cap = lambda b: td["vehicle_capacity"].at(b, 0)
+    # definition (split delivery): visiting customer j delivers min(remaining demand of j, remaining capacity); the depot refills
+    rem = z3.Function("sd_remaining", z3.IntSort(), z3.IntSort(), z3.IntSort(), z3.RealSort())    # rem(b, t, node): before step t; node 0 = the checker's depot slot
+    used = z3.Function("sd_used", z3.IntSort(), z3.IntSort(), z3.RealSort())
+
+    def unfold(b, t):
+        a = act.at(b, t)
+        room = cap(b) - used(b, zint(t))
+        d = ite(rem(b, zint(t), a) <= room, rem(b, zint(t), a), room)
+        k = z3.Int("sd_k")
+        return AND(used(b, zint(t) + 1) == ite(a == 0, zreal(0), used(b, zint(t)) + d),
+                   z3.ForAll([k], z3.Implies(z3.And(k >= 0, k <= zint(N)), rem(b, zint(t) + 1, k) == ite(k == a, rem(b, zint(t), k) - d, rem(b, zint(t), k)))))
+
+    base = u.forall((B,), lambda b: AND(used(b, 0) == 0, rem(b, 0, 0) == -cap(b)))
+    base = AND(base, u.forall((B, N), lambda b, j: rem(b, 0, zint(j) + 1) == td["demand"].at(b, j)))
+    if u.mode == "conc":
+        base = AND(base, u.forall((B, T), lambda b, t: unfold(b, t)))
+    u.requires(base)
+
+    def inv(env, i):
+        dm = carried(env, "demands", "f", nth=0)
+        uc = carried(env, "used_cap", "f", nth=1)
+        return [("demands-are-the-remaining-demands", u.forall((B, N + 1), lambda b, k: dm.at(b, k) == rem(b, zint(i), k))),
+                ("used_cap-is-the-load", u.forall((B,), lambda b: uc.at(b) == used(b, zint(i))))]
+
+    u.loop(SDV, "SDVRPEnv.check_solution_validity", 0,
+           LoopInvariant(inv, name="delivery-loop", tags=("C06",), peel=True, facts=lambda env, i: [u.forall((B,), lambda b: unfold(b, i))]))
+    u.run(SDV, "SDVRPEnv.check_solution_validity", td, act, asserts="record")
+    b, j = u.idx((B,), "b"), u.idx((N,), "j")
+    u.prove("check.sound.every-demand-delivered-in-full", rem(b, zint(T), zint(j) + 1) == 0, tags=("C06",))
+    u.canary("check.sound.nothing-was-ever-delivered", rem(b, zint(T), zint(j) + 1) == td["demand"].at(b, j))
